@@ -91,12 +91,14 @@ class Leg:
         self.stop = False
         self.steps = 0
         self.known_hits = []
+        self.first = 0               # first run index of the next search pass (moves past a listed known finding)
 
     def base_cmd(self):
         return [self.exe, "--prop", self.prop, "--tier", self.tier, "--seed", str(self.seed), "--flavour", self.flavour]
 
     def worker(self, slot, nslots):
-        start = slot
+        start = self.first + slot
+        errpath = None
         while start < self.runs and not self.stop:
             cmd = self.base_cmd() + ["--loop", "--from", str(start), "--to", str(self.runs), "--stride", str(nslots)]
             errpath = os.path.join(builder.BUILD, "err-%s-%s-%d-%d.txt" % (self.prop, self.harness, os.getpid(), slot))
@@ -174,7 +176,8 @@ class Leg:
                     self.stop = True
             start = cur + nslots
         try:
-            os.unlink(errpath)
+            if errpath:
+                os.unlink(errpath)
         except OSError:
             pass
 
@@ -187,6 +190,8 @@ class Leg:
         return cls.startswith("asan") and self.prop in ("C10", "C11", "C20", "C07", "C08", "C18", "C01", "C02")
 
     def run(self):
+        self.found = None
+        self.stop = False
         self.exe = builder.build(self.harness, self.flavour)
         n = min(WORKERS, max(1, self.runs // 50))
         ths = [threading.Thread(target=self.worker, args=(i, n)) for i in range(n)]
@@ -324,11 +329,12 @@ def main():
         l.runs = max(1, int(l.runs * scale))
     known = [k for k in known_findings() if k["property"] == prop]
     violation_path = None
+    known_printed = []
     for leg in legs:
-        leg.run()
-        if leg.machinery:
-            break
-        if leg.found:
+        while True:
+            leg.run()
+            if leg.machinery or not leg.found:
+                break
             idx, cls, detail = leg.found
             print("candidate violation: property=%s harness=%s run=%d class=%s\n  %s" % (prop, leg.harness, idx, cls, detail[:400]))
             os.makedirs(os.path.join(VERIF, "replays"), exist_ok=True)
@@ -342,7 +348,23 @@ def main():
             if got != want:
                 leg.machinery.append("minimised replay file did not reproduce in a fresh process (want %r got %r)" % (want, got))
                 break
-            violation_path = out
+            j = json.load(open(out))
+            kf = None
+            for k in known:
+                if k.get("class") == j["result"]["class"] and re.search(k.get("signature", ".*"), j["result"]["detail"] + " " + j["describe"]):
+                    kf = k
+            if kf is None:
+                violation_path = out
+                break
+            # a listed finding: say so (once per entry) and keep searching behind it, so that a different violation is still reported
+            if kf not in known_printed:
+                known_printed.append(kf)
+                print("KNOWN-FINDING: property=%s %s" % (prop, kf.get("what", kf.get("class"))))
+            leg.known_hits.append(idx)
+            leg.first = idx + 1
+            if len(leg.known_hits) > 200:
+                break
+        if leg.machinery or violation_path:
             break
     wall = time.time() - t0
     mach = [m for l in legs for m in l.machinery]
@@ -350,17 +372,10 @@ def main():
     notes = {}
     if mach:
         notes["machinery_faults"] = mach
+    if known_printed:
+        notes["known_findings_met"] = [{"entry": k, "runs": [i for l in legs for i in l.known_hits][:50]} for k in known_printed]
     if violation_path:
         j = json.load(open(violation_path))
-        kf = None
-        for k in known:
-            if k.get("class") == j["result"]["class"] and re.search(k.get("signature", ".*"), j["result"]["detail"] + " " + j["describe"]):
-                kf = k
-        if kf:
-            # a listed finding: report it as such, nothing else was hidden (the search stopped at it, so say so)
-            write_evidence(prop, tier, seed, legs, wall, 0, dict(notes, known_finding=kf, search_stopped_at_known_finding=True))
-            print("KNOWN-FINDING: property=%s %s" % (prop, kf.get("what", kf.get("class"))))
-            return 0
         write_evidence(prop, tier, seed, legs, wall, 1, dict(notes, violation={"class": j["result"]["class"], "detail": j["result"]["detail"], "replay": violation_path,
                                                                                   "minimised_program": j["describe"]}))
         print("VIOLATION property=%s replay=%s" % (prop, violation_path))
